@@ -99,7 +99,7 @@ Index_from_cuda_array_interface(const std::string& name,
                   }
                   break;
 
-        default: std::invalid_argument(std::string("Couldn't find a compatible ak::dtype for given typestr: ") + typestr + FILENAME(__LINE__));
+        default: throw std::invalid_argument(std::string("Couldn't find a compatible ak::dtype for given typestr: ") + typestr + FILENAME(__LINE__));
       }
     }
     else if ((endianness == ">"  &&  little_endian)  ||
